@@ -211,6 +211,21 @@ pub fn gen_base(seed: u64, idx: u64) -> Plan {
             }
         }
     }
+    // One base plan in four is a server that has been up for a while before
+    // anything happens (nothing about shutdown may be measured from start-up).
+    if r.chance(1, 4) {
+        let up = r.range(35_000, 120_000);
+        for c in conns.iter_mut() {
+            if c.gate == 0 {
+                c.start_ms += up;
+                for st in c.steps.iter_mut() {
+                    if let Step::Until { ms } = st {
+                        *ms += up;
+                    }
+                }
+            }
+        }
+    }
     let nw = r.usize_in(0, 4);
     let waiters = (0..nw).map(|_| *r.pick(&[0u64, 10, 200, 1_000, 5_000, 50_000])).collect();
     Plan {
